@@ -588,7 +588,10 @@ def text_safe(t):
             return v > 0 and "e" not in repr(v)
         return type(v) is str and v.startswith('"')
     if isinstance(t, Term):
-        if t.functor in ("-", ",", "()"):
+        import re
+        if t.functor == "." and t.arity == 2 or t.functor == "[]" and t.arity == 0:
+            return all(text_safe(a) for a in t.args)
+        if type(t.functor) is not str or not re.fullmatch(r"[a-z][A-Za-z0-9_]*", t.functor):
             return False
         return all(text_safe(a) for a in t.args)
     return False
@@ -618,9 +621,11 @@ def check_call(lib, sig, call):
     n = len(sig["ins"])
     if real.get("text_mode"):
         # answers of a (tabled) clause are a set: equal result tuples give one answer
+        # (only the unbound outputs are visible through the clause head; bound ones agree, partially bound ones are hidden)
+        vis = [j for j, st in enumerate(call["states"]) if st[0] == "u"]
         ded = []
         for res in exp:
-            if not any(all(same_value(t, a, b) for t, a, b in zip(sig["outs"], res, r2)) for r2 in ded):
+            if not any(all(same_value(sig["outs"][j], res[j], r2[j]) for j in vis) for r2 in ded):
                 ded.append(res)
         exp = ded
     shown = [tuple("_" if a is None else str(a) for a in ans) for ans in real["answers"]]
